@@ -50,7 +50,7 @@ REPS = {"quick": dict(normal=3, burst=400, early=40), "thorough": dict(normal=40
 
 
 def write_cfg(path, part, *, deviations="{}", fb=None, senders="{1}", sizes="{0}", earlies="{FALSE}",
-              closes="{FALSE}", emit=None, invariants=None, props=None, constraint=None):
+              closes="{FALSE}", emit=None, invariants=None, props=None, constraint=None, reps="{1, 4, 5, 101}"):
     fb = fb or dict(FbApp=8, FbAlert=8, FbHs=8, FbCcs=8)
     if invariants is None:
         invariants = ["TypeOK"] + (["NonceUnique", "EpochProtected", "RecordLimit", "Carried"] if part == "tx" else [])
@@ -63,6 +63,7 @@ CONSTANTS
   Deviations = {deviations}
   Roles = {{"client", "server"}}
   InitPhases = {{"NoKeys", "KeysPending", "Connected", "Closed"}}
+  Reps = {reps}
   FlipBits <- MCFlipBits
   FbApp = {fb['FbApp']}
   FbAlert = {fb['FbAlert']}
